@@ -2,6 +2,7 @@ import Driver.Proto
 import Driver.Attr
 import StunVerif.Msg.Police
 import StunVerif.Crypto.Hash
+import StunVerif.Spec.Causes
 namespace Driver.MsgFam
 open StunVerif Driver
 
@@ -52,12 +53,20 @@ def handle (l : Line) : Verdict :=
     let r := msgFromBytes b
     match r with
     | .ok m => exact s!"msg parse {parseTag r}{tr}" l.obs (renderParse m)
-    | .error e => exact s!"msg parse {parseTag r}{tr}" l.obs e.render
+    | .error e =>
+      -- a buffer malformed in more than one way: any TRUE cause may be named (C02); a cause other than
+      -- the one the model's check order meets first is drift, not a disagreement
+      if l.obs ≠ e.render && (Spec.causes b).any (fun c => c.render == l.obs) then
+        .ok s!"msg parse other-true-cause {parseTag r}{tr}"
+      else exact s!"msg parse {parseTag r}{tr}" l.obs e.render
   | "acc" =>
     let r := msgFromBytes b
     match r with
     | .ok _ => exact s!"msg acc {parseTag r}" l.obs "ok"
-    | .error e => exact s!"msg acc {parseTag r}" l.obs e.render
+    | .error e =>
+      if l.obs ≠ e.render && (Spec.causes b).any (fun c => c.render == l.obs) then
+        .ok s!"msg acc other-true-cause {parseTag r}"
+      else exact s!"msg acc {parseTag r}" l.obs e.render
   | "typed" =>
     match msgFromBytes b with
     | .error _ => exact "msg typed noparse" l.obs "noparse"
